@@ -21,6 +21,8 @@ SVG_SQ = ('<svg xmlns="http://www.w3.org/2000/svg" viewBox="0 0 100 100">'
           '<rect x="-30" y="40" width="50" height="10" fill="#22CC44"/></svg>\n')  # last rect pokes out of the viewBox
 SVG_2 = ('<svg xmlns="http://www.w3.org/2000/svg" viewBox="0 0 100 100">'
          '<path d="M10,80 L40,20 L70,80 Z" fill="#885500"/></svg>\n')
+SVG_WIDE = ('<svg xmlns="http://www.w3.org/2000/svg" viewBox="0 0 150 100">'
+            '<rect x="10" y="20" width="120" height="50" fill="#AA3311"/></svg>\n')
 SOURCES = {"src/emoji_u1f600.svg": SVG_SQ, "src/emoji_u1f601_200d_1f600.svg": SVG_2}
 
 # field -> (file value, flag value, base format family)
@@ -290,6 +292,9 @@ def run_vector(work: Path, tag, field, prov, with_sequence=None):
     for p, t in SOURCES.items():
         if with_sequence or "_200d_" not in p:
             sb.write(p, t)
+    if fam == "bitmap":
+        # a source wider than tall: the strike size follows bitmap_resolution through the bitmap's HEIGHT
+        sb.write("src/emoji_u1f602.svg", SVG_WIDE)
     sb.write("file.fea", FEA % ("rlig", "rlig"))
     sb.write("flag.fea", FEA % ("liga", "liga"))
     sb.write("pylib/custom_glyphmap_file.py", CUSTOM_GLYPHMAP % "fileg")
